@@ -39,7 +39,8 @@ def scenarios(n_max=3, cores=(1, 2), ncancel=1, time_limits=True, vias=("api",),
                 for ops in with_cancels(n, ncancel):
                     for via in vias:
                         for tl in ((None, 5.0) if time_limits else (None,)):
-                            tasks = [dict(deps=list(d), codes=(0, 1), time_limit=(tl if i == 0 else None)) for i, d in enumerate(dag)]
+                            # task 0 may also die from a signal nobody in the pool sent (segfault, OOM killer): negative return code
+                            tasks = [dict(deps=list(d), codes=(0, -11) if i == 0 else (0, 1), time_limit=(tl if i == 0 else None)) for i, d in enumerate(dag)]
                             out.append(dict(cores=c, tasks=tasks, ops=ops, via=via))
     if extras:
         # start failure / log failure / burst after a skipped dependent / pipelined cancel
